@@ -32,37 +32,47 @@ OPENERS = [f"#if {e}" for e in EXPRS] + [f"#ifdef {n}" for n in NAMES] + [f"#ifn
 INIT_SETS = [{}, {"A": ""}, {"A": "1"}, {"A": "0"}, {"B": "1"}, {"A": "1", "B": "0"}, {"A": "2", "B": "2"}]
 
 
-def gen_seq(n, depth, top=True):
+class Alphabet:
+    def __init__(self, simple, openers, inner_openers, elifs, max_elif=2):
+        self.simple, self.openers, self.inner_openers, self.elifs, self.max_elif = simple, openers, inner_openers, elifs, max_elif
+
+
+FULL = Alphabet(DEFS + UNDEFS, OPENERS, INNER_OPENERS, ELIF_EXPRS)
+# deep structural family: constant conditions only, so that size goes to nesting and #elif/#else shapes
+STRUCT = Alphabet(["#define C 7"], ["#if 0", "#if 1"], ["#if 0", "#if 1"], ["0", "1"], max_elif=2)
+
+
+def gen_seq(n, depth, top=True, al=FULL):
     """All directive sequences of exactly n directives, nesting <= depth."""
     if n == 0:
         yield ()
         return
     for c in range(1, n + 1):
-        for item in gen_item(c, depth, top):
-            for rest in gen_seq(n - c, depth, top):
+        for item in gen_item(c, depth, top, al):
+            for rest in gen_seq(n - c, depth, top, al):
                 yield item + rest
 
 
-def gen_item(c, depth, top):
+def gen_item(c, depth, top, al=FULL):
     if c == 1:
-        for d in DEFS + UNDEFS:
+        for d in al.simple:
             yield (d,)
         return
     if depth <= 0:
         return
-    openers = OPENERS if top else INNER_OPENERS
+    openers = al.openers if top else al.inner_openers
     # opener + body(b0) + k x (elif + body) + optional (else + body) + endif
     inner = c - 2
-    for nelif in range(0, 3):
+    for nelif in range(0, al.max_elif + 1):
         for has_else in (False, True):
             fixed = nelif + (1 if has_else else 0)
             if fixed > inner:
                 continue
             nparts = 1 + nelif + (1 if has_else else 0)
             for split in _compositions(inner - fixed, nparts):
-                bodies = [list(gen_seq(b, depth - 1, False)) for b in split]
+                bodies = [list(gen_seq(b, depth - 1, False, al)) for b in split]
                 for op in openers:
-                    for elifs in itertools.product(ELIF_EXPRS, repeat=nelif):
+                    for elifs in itertools.product(al.elifs, repeat=nelif):
                         for combo in itertools.product(*bodies):
                             out = (op,) + combo[0]
                             for k, e in enumerate(elifs):
@@ -267,9 +277,9 @@ def subfamilies(acc: Acc):
 
 
 # ------------------------------------------------------------------- main
-def _cond_jobs(nmax, depth):
+def _cond_jobs(nmax, depth, al=FULL):
     for n in range(0, nmax + 1):
-        yield from gen_seq(n, depth)
+        yield from gen_seq(n, depth, True, al)
 
 
 def gnu_cross_check(ctx, jobs, acc_name="refcpp_vs_gnu_cpp"):
@@ -314,9 +324,12 @@ def main(ctx):
                        "`#define N` without body is compared by name only (fortls stores 'True', cpp stores '')"]
     acc = core.pmap(cond_case, _cond_jobs(nmax, depth), chunk=64, budget_s=120, label="C08/cond")
     ctx.add_family("conditionals", acc, max_directives=nmax, nesting=depth)
-    ctx.states = len(acc.states)
-    ctx.transitions = acc.counters.get("transitions", 0)
-    ctx.traces_validated = acc.counters.get("paths_replayed", 0)
+    smax, sdepth = (8, 3) if q else (10, 3)
+    sacc0 = core.pmap(cond_case, _cond_jobs(smax, sdepth, STRUCT), chunk=64, budget_s=120, label="C08/struct")
+    ctx.add_family("conditional_structure", sacc0, max_directives=smax, nesting=sdepth)
+    ctx.states = len(acc.states | sacc0.states)
+    ctx.transitions = acc.counters.get("transitions", 0) + sacc0.counters.get("transitions", 0)
+    ctx.traces_validated = acc.counters.get("paths_replayed", 0) + sacc0.counters.get("paths_replayed", 0)
     sacc = core.pmap(subst_case, subst_jobs(3 if q else 4), chunk=256, budget_s=60, label="C08/subst")
     ctx.add_family("substitution", sacc, max_atoms=3 if q else 4)
     sub = Acc()
